@@ -30,7 +30,8 @@ for v in ev['coverage']['violations_detail'] or []:
         T_REPORT if 'typeahead-with-cursor-report' in v['label'] else T_GENERAL,
         json.dumps(v['vals'], sort_keys=True))
     seen[key] = {"property": "C05", "status": "known", "kind": "assert", "label": v['label'],
-                 "job": {"mode": job['mode'], "pre": job['pre']}, "what": what}
+                 "job": {"mode": job['mode'], "pre": job['pre']}, "what": what,
+                 "record": "known: property=C05 " + what}
 new = list(seen.values())
 print("old C05 entries: %d, new: %d" % (len(old), len(new)), file=sys.stderr)
 json.dump(keep + new, open(kf_path, 'w'), indent=1, ensure_ascii=False)
